@@ -19,7 +19,6 @@ FlowReadException; any other exception (caught as BaseException) violates `reade
 """
 from __future__ import annotations
 
-import io
 import itertools
 import math
 import os
@@ -29,7 +28,6 @@ from mitmproxy import flow as mflow
 from mitmproxy import version
 from mitmproxy.io import compat
 
-from vmc import par
 from vmc.refs import flowgen as G
 from vmc.tally import Tally
 
